@@ -152,9 +152,9 @@ def units(tier):
     k = 2 if tier == "quick" else 3
     names = ["p%d" % i for i in range(k)] + ["t%d" % i for i in range(k)]
     subsets = [set(c) for r in range(len(names) + 1) for c in itertools.combinations(names, r)]
-    us = [{"k": k, "marks": [sorted(s) for s in ch], "m": 4 if tier == "quick" else 5}
-          for ch in chunks(subsets, 8)]
-    us.append({"kind": "unary", "m": 3 if tier == "quick" else 4})
+    us = [{"k": k, "marks": [sorted(s) for s in ch], "m": 4 if tier == "quick" else 6}
+          for ch in chunks(subsets, 64)]
+    us.append({"kind": "unary", "m": 3 if tier == "quick" else 5})
     return us
 
 
